@@ -268,7 +268,7 @@ func sp(t *rapid.T) string {
 }
 
 func genW(t *rapid.T) float64 {
-	return rapid.SampledFrom([]float64{0.1, 0.25, 0.5, 0.3333, 0.0001, 1, 0.9, 0.05, 1.5, 0.2, 0.75, 0, -1, 10, 50, 100, 20.5, 0.01, 1000}).Draw(t, "w")
+	return rapid.SampledFrom([]float64{0.1, 0.25, 0.5, 0.3333, 0.0001, 1, 0.9, 0.05, 1.5, 0.2, 0.75, 0, -1, 10, 50, 100, 20.5, 0.01, 1000, 33.333, 123456, 12.3456, 2.5}).Draw(t, "w")
 }
 
 func fw(w float64) string { return strconv.FormatFloat(w, 'f', -1, 64) }
@@ -298,6 +298,9 @@ func genCmd(t *rapid.T, m *model) cmd {
 			return mixCase(t, er.host) + er.path
 		}
 		h := rapid.SampledFrom(hosts).Draw(t, "host")
+		if h != "" && !strings.HasPrefix(h, ":") && rapid.IntRange(0, 5).Draw(t, "bare-host") == 0 {
+			return mixCase(t, h) // a bare host (no slash): the same as <host>/
+		}
 		return mixCase(t, h) + rapid.SampledFrom(paths).Draw(t, "path")
 	}
 	pickSvc := func() string {
